@@ -1,23 +1,983 @@
 package main
 
 import (
+	"bytes"
+	"context"
 	"encoding/json"
 	"fmt"
+	"go/types"
+	"math/big"
 	"os"
+	"os/exec"
 	"path/filepath"
+	"sort"
+	"strings"
+	"time"
+
+	"golang.org/x/tools/go/ssa"
 )
 
-// replay writes the replay file for a failed obligation and, when the solver
-// produced a model, replays it against the real code.
+// ---- model extraction -------------------------------------------------------
+
+// rnode is one node of the input reification plan: which SMT terms to ask the
+// model for, and how to turn their values into a Go expression.
+type rnode struct {
+	typ   types.Type
+	kind  string // int bool slice ptr struct array time opaque
+	terms []int  // indices into plan.terms
+	kids  []*rnode
+	names []string
+	ghost int // index of the ghost unixnano term (time.Time), -1 if none
+}
+
+type plan struct {
+	terms []string
+	c     *Ctx
+	H0    map[string]string
+}
+
+func (p *plan) term(t string) int {
+	p.terms = append(p.terms, t)
+	return len(p.terms) - 1
+}
+
+func (p *plan) cellsAt(obj, cell string, t types.Type) Val {
+	ls := leaves(t)
+	out := make(Val, len(ls))
+	for i, l := range ls {
+		out[i] = fmt.Sprintf("(select (select %s %s) (+ %s %d))", p.H0[l.kind], obj, cell, i)
+	}
+	return out
+}
+
+func (p *plan) build(t types.Type, v Val, depth int) *rnode {
+	n := &rnode{typ: t, ghost: -1}
+	if named, ok := t.(*types.Named); ok && named.Obj().Pkg() != nil && named.Obj().Pkg().Path() == "time" && named.Obj().Name() == "Time" {
+		n.kind = "time"
+		if p.c.decls["ghost_unixnano"] {
+			n.ghost = p.term(fmt.Sprintf("(ghost_unixnano %s)", strings.Join(v, " ")))
+		}
+		return n
+	}
+	switch u := t.Underlying().(type) {
+	case *types.Basic:
+		switch {
+		case u.Info()&types.IsBoolean != 0:
+			n.kind = "bool"
+		case u.Info()&types.IsInteger != 0:
+			n.kind = "int"
+		default:
+			n.kind = "opaque"
+			return n
+		}
+		n.terms = []int{p.term(v[0])}
+	case *types.Slice:
+		n.kind = "slice"
+		for _, x := range v {
+			n.terms = append(n.terms, p.term(x))
+		}
+		max := 64
+		if cells(u.Elem()) > 1 {
+			max = 6
+		}
+		if depth > 1 {
+			max = max / 2
+		}
+		if depth > 3 {
+			max = 0
+		}
+		st := cells(u.Elem())
+		for i := 0; i < max; i++ {
+			ev := p.cellsAt(v[0], fmt.Sprintf("(+ %s %d)", v[1], i*st), u.Elem())
+			n.kids = append(n.kids, p.build(u.Elem(), ev, depth+1))
+		}
+	case *types.Pointer:
+		n.kind = "ptr"
+		n.terms = []int{p.term(v[0]), p.term(v[1])}
+		if depth <= 3 {
+			ev := p.cellsAt(v[0], v[1], u.Elem())
+			n.kids = []*rnode{p.build(u.Elem(), ev, depth+1)}
+		}
+	case *types.Struct:
+		n.kind = "struct"
+		off := 0
+		for i := 0; i < u.NumFields(); i++ {
+			k := cells(u.Field(i).Type())
+			n.kids = append(n.kids, p.build(u.Field(i).Type(), v[off:off+k], depth))
+			n.names = append(n.names, u.Field(i).Name())
+			off += k
+		}
+	case *types.Array:
+		n.kind = "array"
+		k := cells(u.Elem())
+		for i := 0; i < int(u.Len()) && i < 16; i++ {
+			n.kids = append(n.kids, p.build(u.Elem(), v[i*k:(i+1)*k], depth))
+		}
+	default:
+		n.kind = "opaque"
+	}
+	return n
+}
+
+// parse the solver's (get-value ...) answer: a list of (term value) pairs, in order
+func parseValues(out string, n int) ([]*big.Int, bool) {
+	i := strings.Index(out, "((")
+	if i < 0 {
+		return nil, false
+	}
+	s := out[i+1:]
+	var vals []*big.Int
+	pos := 0
+	for len(vals) < n {
+		// find next top-level pair
+		for pos < len(s) && s[pos] != '(' {
+			if s[pos] == ')' {
+				return vals, len(vals) == n
+			}
+			pos++
+		}
+		if pos >= len(s) {
+			break
+		}
+		depth, start := 0, pos
+		for pos < len(s) {
+			if s[pos] == '(' {
+				depth++
+			} else if s[pos] == ')' {
+				depth--
+				if depth == 0 {
+					pos++
+					break
+				}
+			}
+			pos++
+		}
+		pair := s[start:pos]
+		// the value is the last top-level item of the pair
+		inner := strings.TrimSpace(pair[1 : len(pair)-1])
+		val := lastItem(inner)
+		v, ok := parseIntVal(val)
+		if !ok {
+			v = big.NewInt(0)
+		}
+		vals = append(vals, v)
+	}
+	return vals, len(vals) == n
+}
+
+func lastItem(s string) string {
+	s = strings.TrimSpace(s)
+	if strings.HasSuffix(s, ")") {
+		depth := 0
+		for i := len(s) - 1; i >= 0; i-- {
+			if s[i] == ')' {
+				depth++
+			} else if s[i] == '(' {
+				depth--
+				if depth == 0 {
+					return s[i:]
+				}
+			}
+		}
+	}
+	if i := strings.LastIndexAny(s, " \n\t"); i >= 0 {
+		return s[i+1:]
+	}
+	return s
+}
+
+func parseIntVal(s string) (*big.Int, bool) {
+	s = strings.TrimSpace(s)
+	if strings.HasPrefix(s, "(-") {
+		inner := strings.TrimSpace(strings.TrimSuffix(strings.TrimPrefix(s, "(-"), ")"))
+		v, ok := new(big.Int).SetString(inner, 10)
+		if !ok {
+			return nil, false
+		}
+		return v.Neg(v), true
+	}
+	if s == "true" {
+		return big.NewInt(1), true
+	}
+	if s == "false" {
+		return big.NewInt(0), true
+	}
+	v, ok := new(big.Int).SetString(s, 10)
+	return v, ok
+}
+
+// ---- rendering Go values from the model -------------------------------------
+
+type renderer struct {
+	vals    []*big.Int
+	pkg     *types.Package
+	imports map[string]string // path -> name
+	back    map[string]*backing
+	order   []string
+	decls   []string
+	nptr    int
+	err     string
+}
+
+type backing struct {
+	name   string
+	elem   types.Type
+	stride int
+	size   int64
+	fills  []string
+}
+
+func (r *renderer) qual(p *types.Package) string {
+	if p == r.pkg {
+		return ""
+	}
+	r.imports[p.Path()] = p.Name()
+	return p.Name()
+}
+
+func (r *renderer) tname(t types.Type) string { return types.TypeString(t, r.qual) }
+
+func (r *renderer) val(i int) *big.Int { return r.vals[i] }
+
+func (r *renderer) fail(format string, a ...any) string {
+	if r.err == "" {
+		r.err = fmt.Sprintf(format, a...)
+	}
+	return "nil"
+}
+
+func (r *renderer) render(n *rnode) string {
+	switch n.kind {
+	case "int":
+		return fmt.Sprintf("%s(%s)", r.tname(n.typ), r.intLit(n.typ, r.val(n.terms[0])))
+	case "bool":
+		if r.val(n.terms[0]).Sign() != 0 {
+			return "true"
+		}
+		return "false"
+	case "time":
+		r.imports["time"] = "time"
+		if n.ghost >= 0 {
+			return fmt.Sprintf("time.Unix(0, %s)", r.val(n.ghost).String())
+		}
+		return "time.Time{}"
+	case "struct":
+		if named, ok := n.typ.(*types.Named); ok && named.Obj().Pkg() != nil && named.Obj().Pkg() != r.pkg {
+			// foreign struct: unexported fields cannot be set; zero value
+			return r.tname(n.typ) + "{}"
+		}
+		var fs []string
+		for i, k := range n.kids {
+			if n.names[i] == "_" {
+				continue
+			}
+			if k.kind == "opaque" {
+				continue
+			}
+			fs = append(fs, fmt.Sprintf("%s: %s", n.names[i], r.render(k)))
+		}
+		return fmt.Sprintf("%s{%s}", r.tname(n.typ), strings.Join(fs, ", "))
+	case "array":
+		var es []string
+		for _, k := range n.kids {
+			es = append(es, r.render(k))
+		}
+		return fmt.Sprintf("%s{%s}", r.tname(n.typ), strings.Join(es, ", "))
+	case "ptr":
+		obj := r.val(n.terms[0])
+		if obj.Sign() == 0 {
+			return fmt.Sprintf("(%s)(nil)", r.tname(n.typ))
+		}
+		if len(n.kids) == 0 {
+			return r.fail("pointer nesting too deep")
+		}
+		r.nptr++
+		name := fmt.Sprintf("zp%d", r.nptr)
+		et := n.typ.Underlying().(*types.Pointer).Elem()
+		inner := r.render(n.kids[0])
+		r.decls = append(r.decls, fmt.Sprintf("%s := new(%s); *%s = %s", name, r.tname(et), name, inner))
+		return name
+	case "slice":
+		obj, off, ln, cp := r.val(n.terms[0]), r.val(n.terms[1]), r.val(n.terms[2]), r.val(n.terms[3])
+		if obj.Sign() == 0 {
+			return fmt.Sprintf("%s(nil)", r.tname(n.typ))
+		}
+		et := n.typ.Underlying().(*types.Slice).Elem()
+		st := int64(cells(et))
+		if !ln.IsInt64() || ln.Int64() > int64(len(n.kids)) {
+			return r.fail("model slice too long to reify (len %s, limit %d)", ln, len(n.kids))
+		}
+		if off.Sign() < 0 || !off.IsInt64() || off.Int64()%st != 0 || off.Int64() > 1<<20 {
+			return r.fail("model slice offset %s not reifiable", off)
+		}
+		c := cp.Int64()
+		if !cp.IsInt64() || c > 1<<16 {
+			c = ln.Int64() // huge capacities are clamped (noted in the replay file)
+		}
+		key := obj.String() + "/" + r.tname(et)
+		b := r.back[key]
+		if b == nil {
+			b = &backing{name: fmt.Sprintf("zb%d", len(r.back)+1), elem: et, stride: int(st)}
+			r.back[key] = b
+			r.order = append(r.order, key)
+		}
+		o := off.Int64() / st
+		if o+c > b.size {
+			b.size = o + c
+		}
+		for i := int64(0); i < ln.Int64(); i++ {
+			b.fills = append(b.fills, fmt.Sprintf("%s[%d] = %s", b.name, o+i, r.render(n.kids[i])))
+		}
+		return fmt.Sprintf("%s[%d:%d:%d]", b.name, o, o+ln.Int64(), o+c)
+	}
+	return r.fail("cannot reify a value of type %s", n.typ)
+}
+
+func (r *renderer) intLit(t types.Type, v *big.Int) string {
+	return v.String()
+}
+
+// ---- the replay itself --------------------------------------------------------
+
+type replayRec struct {
+	Property   string            `json:"property"`
+	Obligation string            `json:"obligation"`
+	Kind       string            `json:"kind"`
+	At         string            `json:"at"`
+	Clause     string            `json:"clause,omitempty"`
+	Solver     string            `json:"solver_output"`
+	Function   string            `json:"function"`
+	Inputs     map[string]string `json:"model_inputs,omitempty"`
+	TestFile   string            `json:"go_test,omitempty"`
+	PkgDir     string            `json:"pkg_dir,omitempty"`
+	Output     string            `json:"go_test_output,omitempty"`
+	Confirmed  bool              `json:"confirmed"`
+	How        string            `json:"how"`
+	Goal       string            `json:"goal,omitempty"`
+}
+
+func (r *Report) frFor(o *Obl) *FuncResult {
+	for _, fr := range r.frs {
+		if fr.Name == o.Func {
+			return fr
+		}
+	}
+	return nil
+}
+
+// replay writes the replay file for a failed obligation and, when a solver
+// produced a model, replays the model's inputs against the real code.
 func (r *Report) replay(o *Obl, dir string, cfg *solverCfg) (string, bool) {
 	path := filepath.Join(dir, sanitize(o.Name)+".json")
-	rec := map[string]any{"property": r.Prop, "obligation": o.Name, "kind": o.Kind, "at": o.Pos, "solver_output": o.Detail, "goal": o.goal, "confirmed": false}
-	data, _ := json.MarshalIndent(rec, "", " ")
-	os.WriteFile(path, data, 0o644)
-	return path, false
+	rec := &replayRec{Property: r.Prop, Obligation: o.Name, Kind: o.Kind, At: o.Pos, Solver: o.Detail, Function: o.Func, How: "no model: the solvers answered unknown/timeout (quantified context) or the obligation is a missing contract target"}
+	if len(o.goal) < 4000 {
+		rec.Goal = o.goal
+	}
+	defer func() {
+		data, _ := json.MarshalIndent(rec, "", " ")
+		os.WriteFile(path, data, 0o644)
+	}()
+	fr := r.frFor(o)
+	if o.Verdict != "failed-sat" || fr == nil || fr.entry == nil || o.ctx == nil {
+		return path, false
+	}
+	func() {
+		defer func() {
+			if x := recover(); x != nil {
+				rec.How = fmt.Sprintf("replay generation failed: %v", x)
+			}
+		}()
+		r.replayModel(o, fr, rec, path, cfg)
+	}()
+	return path, rec.Confirmed
+}
+
+func (r *Report) replayModel(o *Obl, fr *FuncResult, rec *replayRec, path string, cfg *solverCfg) {
+	ei := fr.entry
+	pl := &plan{c: o.ctx, H0: ei.heaps}
+	var roots []*rnode
+	for _, sv := range ei.params {
+		roots = append(roots, pl.build(sv.typ, sv.t, 0))
+	}
+	// small-model preference: bounded lengths first, then unconstrained
+	var small, typing []string // typing: the pre-state is a well-typed Go heap (no negative lengths in fields the code never reads)
+	var walk func(n *rnode)
+	walk = func(n *rnode) {
+		if n.kind == "slice" {
+			small = append(small, fmt.Sprintf("(assert (<= %s %d))", pl.terms[n.terms[2]], len(n.kids)))
+			small = append(small, fmt.Sprintf("(assert (<= %s %d))", pl.terms[n.terms[3]], 4096))
+			small = append(small, fmt.Sprintf("(assert (<= %s %d))", pl.terms[n.terms[1]], 64))
+			typing = append(typing, fmt.Sprintf("(assert (and (<= 0 %s) (<= 0 %s) (<= %s %s) (<= 0 %s) (=> (= %s 0) (and (= %s 0) (= %s 0)))))",
+				pl.terms[n.terms[1]], pl.terms[n.terms[2]], pl.terms[n.terms[2]], pl.terms[n.terms[3]], pl.terms[n.terms[0]], pl.terms[n.terms[0]], pl.terms[n.terms[3]], pl.terms[n.terms[1]]))
+		}
+		if n.kind == "slice" {
+			if st := cells(n.typ.Underlying().(*types.Slice).Elem()); st > 1 {
+				typing = append(typing, fmt.Sprintf("(assert (= (mod %s %d) 0))", pl.terms[n.terms[1]], st))
+			}
+		}
+		if n.kind == "ptr" {
+			typing = append(typing, fmt.Sprintf("(assert (and (<= 0 %s) (<= 0 %s)))", pl.terms[n.terms[0]], pl.terms[n.terms[1]]))
+		}
+		if n.kind == "int" || n.kind == "bool" {
+			if ls := leaves(n.typ); len(ls) == 1 {
+				lo, hi := "0", pow2(ls[0].bits).String()
+				if ls[0].kind == "bool" {
+					hi = "2"
+				} else if ls[0].signed {
+					lo, hi = "(- "+pow2(ls[0].bits-1).String()+")", pow2(ls[0].bits-1).String()
+				}
+				typing = append(typing, fmt.Sprintf("(assert (and (<= %s %s) (< %s %s)))", lo, pl.terms[n.terms[0]], pl.terms[n.terms[0]], hi))
+			}
+		}
+		for _, k := range n.kids {
+			walk(k)
+		}
+	}
+	for _, n := range roots {
+		walk(n)
+	}
+	var vals []*big.Int
+	var ok bool
+	for attempt := 0; attempt < 2 && !ok; attempt++ {
+		extra := append(append([]string{}, typing...), small...)
+		if attempt == 1 {
+			extra = typing
+		}
+		q := o.query(extra...)
+		q = strings.Replace(q, zeroRowAxioms, zeroRowConst, 1)
+		q = "(set-option :produce-models true)\n" + q + "(get-value (" + strings.Join(pl.terms, "\n ") + "))\n"
+		file := filepath.Join(cfg.tmp, "model.smt2")
+		os.WriteFile(file, []byte(q), 0o644)
+		for _, solver := range []string{"z3-new", "z3"} {
+			v, out, _ := runSolver(solver, file, 20, cfg.seed)
+			if v == "sat" {
+				vals, ok = parseValues(out, len(pl.terms))
+				if ok {
+					break
+				}
+			}
+		}
+	}
+	if !ok {
+		rec.How = "a solver answered sat but no usable model was obtained under the replay size limits"
+		return
+	}
+	fn := ei.fn
+	rd := &renderer{vals: vals, pkg: fn.Pkg.Pkg, imports: map[string]string{}, back: map[string]*backing{}}
+	var args []string
+	rec.Inputs = map[string]string{}
+	for i, n := range roots {
+		code := rd.render(n)
+		args = append(args, code)
+		rec.Inputs[ei.names[i]] = code
+	}
+	if rd.err != "" {
+		rec.How = "model found but inputs could not be turned into Go values: " + rd.err
+		return
+	}
+	src, how := r.testSource(o, fr, rd, args)
+	if src == "" {
+		rec.How = how
+		return
+	}
+	testFile := strings.TrimSuffix(path, ".json") + "_test.go.txt"
+	os.WriteFile(testFile, []byte(src), 0o644)
+	rec.TestFile = testFile
+	pkgDir := pkgDirOf(r.prog, fn)
+	rec.PkgDir = pkgDir
+	out, timedOut := runReplayTest(r.prog.repoDir, pkgDir, testFile)
+	if len(out) > 3000 {
+		out = out[len(out)-3000:]
+	}
+	rec.Output = out
+	rec.Confirmed, rec.How = judgeReplay(o, out, timedOut, how)
+}
+
+func pkgDirOf(p *Prog, fn *ssa.Function) string {
+	rel := strings.TrimPrefix(fn.Pkg.Pkg.Path(), modPath)
+	return filepath.Join(p.repoDir, rel)
+}
+
+func judgeReplay(o *Obl, out string, timedOut bool, postHow string) (bool, string) {
+	switch {
+	case strings.Contains(out, "REPLAY-PANIC"):
+		if o.Kind == "safety" || o.Kind == "ensures" || o.Kind == "requires" {
+			return true, "the model's inputs make the real function panic"
+		}
+		return true, "the model's inputs make the real function panic (obligation kind " + o.Kind + ")"
+	case timedOut && o.Kind == "decreases":
+		return true, "the model's inputs make the real function run past the replay timeout"
+	case strings.Contains(out, "REPLAY-POST: false"):
+		return true, "the real function returns normally on the model's inputs and the clause evaluates to false on the result"
+	case strings.Contains(out, ": false") && strings.Contains(out, "REPLAY-ENSURES"):
+		var which []string
+		for _, ln := range strings.Split(out, "\n") {
+			if strings.HasPrefix(ln, "REPLAY-ENSURES ") && strings.HasSuffix(strings.TrimSpace(ln), ": false") {
+				which = append(which, strings.TrimSuffix(strings.TrimPrefix(strings.TrimSpace(ln), "REPLAY-ENSURES "), ": false"))
+			}
+		}
+		return true, "the real function returns normally on the model's inputs and violates its postcondition(s) " + strings.Join(which, ", ")
+	case strings.Contains(out, "REPLAY-POST: true"):
+		return false, "the real function returns normally on the model's inputs and the clause holds there (the model depends on aliasing, capacities or havocked state that the replay does not reproduce)"
+	case strings.Contains(out, "REPLAY-RETURNED"):
+		return false, "the real function returns normally on the model's inputs; " + postHow
+	}
+	return false, "the replay test did not run to completion (see go_test_output)"
+}
+
+func runReplayTest(repoDir, pkgDir, testFile string) (string, bool) {
+	tmp, _ := os.MkdirTemp("", "rtpverify-replay")
+	defer os.RemoveAll(tmp)
+	dst := filepath.Join(pkgDir, "zz_verif_replay_test.go")
+	ov := map[string]map[string]string{"Replace": {dst: testFile}}
+	data, _ := json.Marshal(ov)
+	ovFile := filepath.Join(tmp, "ov.json")
+	os.WriteFile(ovFile, data, 0o644)
+	ctx, cancel := context.WithTimeout(context.Background(), 150*time.Second)
+	defer cancel()
+	cmd := exec.CommandContext(ctx, "go", "test", "-tags", "verif", "-overlay", ovFile, "-vet=off", "-count=1", "-timeout", "60s", "-run", "TestZZVerifReplay", "-v", ".")
+	cmd.Dir = pkgDir
+	cmd.Env = append(os.Environ(), "GOFLAGS=-mod=mod", "GOPROXY=off", "GOSUMDB=off", "GOTOOLCHAIN=local")
+	var buf bytes.Buffer
+	cmd.Stdout = &buf
+	cmd.Stderr = &buf
+	cmd.Run()
+	out := buf.String()
+	return out, strings.Contains(out, "test timed out") || ctx.Err() != nil
+}
+
+// testSource renders the in-package replay test.
+func (r *Report) testSource(o *Obl, fr *FuncResult, rd *renderer, args []string) (string, string) {
+	ei := fr.entry
+	fn := ei.fn
+	sig := fn.Signature
+	var b strings.Builder
+	// construction of the inputs (twice: the second copy stays pristine for old())
+	var mk strings.Builder
+	for _, key := range rd.order {
+		bk := rd.back[key]
+		sz := bk.size
+		if sz < 1 {
+			sz = 1
+		}
+		fmt.Fprintf(&mk, "\t\t%s := make([]%s, %d)\n", bk.name, rd.tname(bk.elem), sz)
+	}
+	// fills may reference pointer decls and vice versa: decls first, then fills
+	for _, d := range rd.decls {
+		fmt.Fprintf(&mk, "\t\t%s\n", d)
+	}
+	for _, key := range rd.order {
+		for _, f := range rd.back[key].fills {
+			fmt.Fprintf(&mk, "\t\t%s\n", f)
+		}
+	}
+	for _, key := range rd.order {
+		fmt.Fprintf(&mk, "\t\tzzRegister(%s)\n", rd.back[key].name)
+	}
+	var ptypes, pnames, onames []string
+	for i, sv := range ei.params {
+		ptypes = append(ptypes, rd.tname(sv.typ))
+		nm := ei.names[i]
+		if nm == "" || nm == "_" {
+			nm = fmt.Sprintf("zarg%d", i)
+		}
+		pnames = append(pnames, nm)
+		onames = append(onames, "old_"+nm)
+	}
+	// results
+	var rnames, rtypes []string
+	for i := 0; i < sig.Results().Len(); i++ {
+		rnames = append(rnames, fmt.Sprintf("result%d", i))
+		rtypes = append(rtypes, rd.tname(sig.Results().At(i).Type()))
+	}
+	// the call
+	var call string
+	if sig.Recv() != nil {
+		call = fmt.Sprintf("%s.%s(%s)", pnames[0], fn.Name(), strings.Join(pnames[1:], ", "))
+	} else {
+		call = fmt.Sprintf("%s(%s)", fn.Name(), strings.Join(pnames, ", "))
+	}
+	if len(rnames) > 0 {
+		call = strings.Join(rnames, ", ") + " = " + call
+	}
+	// postcondition
+	post, postHow := "", "the failed obligation is not an `ensures` clause; the function's postconditions are evaluated on the outcome instead"
+	var tr *goTrans
+	if fr.Spec != nil {
+		tr = &goTrans{r: rd, fn: fn, prog: r.prog, params: map[string]types.Type{}, results: map[string]types.Type{}}
+		for i, sv := range ei.params {
+			tr.params[pnames[i]] = sv.typ
+			if ei.names[i] != pnames[i] {
+				tr.alias = map[string]string{ei.names[i]: pnames[i]}
+			}
+		}
+		for i := 0; i < sig.Results().Len(); i++ {
+			rt := sig.Results().At(i).Type()
+			tr.results[fmt.Sprintf("result%d", i)] = rt
+			if i == 0 {
+				tr.resAlias = map[string]string{"result": "result0"}
+			}
+			if nm := sig.Results().At(i).Name(); nm != "" && nm != "_" {
+				if tr.resAlias == nil {
+					tr.resAlias = map[string]string{}
+				}
+				tr.resAlias[nm] = fmt.Sprintf("result%d", i)
+			}
+			if i == sig.Results().Len()-1 && isErrorType(rt) {
+				if tr.resAlias == nil {
+					tr.resAlias = map[string]string{}
+				}
+				if _, ok := tr.resAlias["err"]; !ok {
+					tr.resAlias["err"] = fmt.Sprintf("result%d", i)
+				}
+			}
+		}
+		if cl := clauseFor(fr.Spec, o); cl != nil && o.Kind == "ensures" {
+			code, err := tr.boolExpr(cl)
+			if err != nil {
+				postHow = "the clause could not be translated to Go for evaluation: " + err.Error()
+			} else {
+				post = code
+				postHow = ""
+			}
+		}
+	}
+	// whatever obligation failed, the function's own postconditions are evaluated on the
+	// real outcome as well: a model that is a genuine input shows up there
+	var others []string
+	if fr.Spec != nil && tr != nil {
+		for _, en := range fr.Spec.Ensures {
+			for pi, part := range splitConj(en.Expr) {
+				if code, err := tr.boolExpr(part); err == nil {
+					others = append(others, fmt.Sprintf("\tif p := zzCatch(func() { fmt.Printf(\"REPLAY-ENSURES %s/%d: %%v\\n\", %s) }); p != nil {\n\t\tfmt.Printf(\"REPLAY-ENSURES-EVAL-PANIC %s/%d: %%v\\n\", p)\n\t}\n", en.Label, pi+1, code, en.Label, pi+1))
+				}
+			}
+		}
+	}
+	// imports
+	rd.imports["testing"] = "testing"
+	rd.imports["fmt"] = "fmt"
+	rd.imports["math/big"] = "big"
+	rd.imports["reflect"] = "reflect"
+	rd.imports["unsafe"] = "unsafe"
+	rd.imports["errors"] = "errors"
+	var imps []string
+	for p := range rd.imports {
+		imps = append(imps, p)
+	}
+	sort.Strings(imps)
+	fmt.Fprintf(&b, "//go:build verif\n\n// Generated by rtpverify: replay of a solver model against the real code.\n// obligation: %s\npackage %s\n\nimport (\n", o.Name, fn.Pkg.Pkg.Name())
+	for _, p := range imps {
+		fmt.Fprintf(&b, "\t%q\n", p)
+	}
+	fmt.Fprintf(&b, ")\n\n")
+	fmt.Fprintf(&b, "func TestZZVerifReplay(zzT *testing.T) {\n")
+	fmt.Fprintf(&b, "\tmk := func() (%s) {\n%s\t\treturn %s\n\t}\n", strings.Join(ptypes, ", "), mk.String(), strings.Join(args, ", "))
+	fmt.Fprintf(&b, "\t%s := mk()\n", strings.Join(pnames, ", "))
+	fmt.Fprintf(&b, "\t%s := mk()\n", strings.Join(onames, ", "))
+	for _, n := range append(append([]string{}, pnames...), onames...) {
+		fmt.Fprintf(&b, "\t_ = %s\n", n)
+	}
+	for i := range rnames {
+		fmt.Fprintf(&b, "\tvar %s %s\n\t_ = %s\n", rnames[i], rtypes[i], rnames[i])
+	}
+	fmt.Fprintf(&b, "\tif p := zzCatch(func() { %s }); p != nil {\n\t\tfmt.Printf(\"REPLAY-PANIC: %%v\\n\", p)\n\t\treturn\n\t}\n", call)
+	fmt.Fprintf(&b, "\tfmt.Println(\"REPLAY-RETURNED\")\n")
+	for i := range rnames {
+		fmt.Fprintf(&b, "\tfmt.Printf(\"REPLAY-RESULT %s = %%#v\\n\", %s)\n", rnames[i], rnames[i])
+	}
+	if post != "" {
+		fmt.Fprintf(&b, "\tif p := zzCatch(func() { fmt.Printf(\"REPLAY-POST: %%v\\n\", %s) }); p != nil {\n\t\tfmt.Printf(\"REPLAY-POST-EVAL-PANIC: %%v\\n\", p)\n\t}\n", post)
+	}
+	for _, x := range others {
+		b.WriteString(x)
+	}
+	fmt.Fprintf(&b, "}\n\n%s", replayPrelude)
+	return b.String(), postHow
+}
+
+// clauseFor finds the (split) clause an ensures obligation checks.
+func clauseFor(sp *FuncSpec, o *Obl) *SExpr {
+	lbl := o.Label
+	part := 0
+	if i := strings.LastIndex(lbl, "/"); i >= 0 {
+		fmt.Sscan(lbl[i+1:], &part)
+		lbl = lbl[:i]
+	}
+	for _, en := range sp.Ensures {
+		if en.Label == lbl {
+			parts := splitConj(en.Expr)
+			if part >= 1 && part <= len(parts) {
+				return parts[part-1]
+			}
+			return en.Expr
+		}
+	}
+	return nil
 }
 
 func cmdReplay(verifDir, repoDir string, args []string) int {
-	fmt.Println("replay:", args)
+	if len(args) < 1 {
+		fmt.Println("usage: rtpverify replay <replay.json>")
+		return 2
+	}
+	data, err := os.ReadFile(args[0])
+	if err != nil {
+		fmt.Println("cannot read", args[0], err)
+		return 2
+	}
+	var rec replayRec
+	if err := json.Unmarshal(data, &rec); err != nil {
+		fmt.Println("bad replay file:", err)
+		return 2
+	}
+	fmt.Printf("obligation: %s (%s)\nproperty: %s\nrecorded: confirmed=%v (%s)\n", rec.Obligation, rec.Kind, rec.Property, rec.Confirmed, rec.How)
+	if rec.TestFile == "" {
+		fmt.Println("no replayable input was recorded for this obligation; solver output:", rec.Solver)
+		return 0
+	}
+	pkgDir := rec.PkgDir
+	out, _ := runReplayTest(repoDir, pkgDir, rec.TestFile)
+	fmt.Println(out)
+	if strings.Contains(out, "REPLAY-PANIC") || strings.Contains(out, "REPLAY-POST: false") {
+		fmt.Println("REPLAY: violation reproduced on the current tree")
+		return 1
+	}
+	fmt.Println("REPLAY: not reproduced on the current tree")
 	return 0
 }
+
+const replayPrelude = `
+type zzRange struct{ lo, hi uintptr }
+
+var zzInputs []zzRange
+
+func zzRegister(s any) {
+	v := reflect.ValueOf(s)
+	if v.Kind() != reflect.Slice || v.Cap() == 0 {
+		return
+	}
+	lo := v.Pointer()
+	zzInputs = append(zzInputs, zzRange{lo, lo + uintptr(v.Cap())*v.Type().Elem().Size()})
+}
+
+func zzCatch(f func()) (p any) {
+	defer func() { p = recover() }()
+	f()
+	return nil
+}
+
+func zzOf(x any) *big.Int {
+	v := reflect.ValueOf(x)
+	switch v.Kind() {
+	case reflect.Int, reflect.Int8, reflect.Int16, reflect.Int32, reflect.Int64:
+		return big.NewInt(v.Int())
+	case reflect.Uint, reflect.Uint8, reflect.Uint16, reflect.Uint32, reflect.Uint64, reflect.Uintptr:
+		return new(big.Int).SetUint64(v.Uint())
+	case reflect.Bool:
+		if v.Bool() {
+			return big.NewInt(1)
+		}
+		return big.NewInt(0)
+	}
+	if b, ok := x.(*big.Int); ok {
+		return b
+	}
+	panic(fmt.Sprintf("zzOf: %T", x))
+}
+func zzN(s string) *big.Int    { v, _ := new(big.Int).SetString(s, 10); return v }
+func zzAdd(a, b *big.Int) *big.Int { return new(big.Int).Add(a, b) }
+func zzSub(a, b *big.Int) *big.Int { return new(big.Int).Sub(a, b) }
+func zzMul(a, b *big.Int) *big.Int { return new(big.Int).Mul(a, b) }
+func zzDiv(a, b *big.Int) *big.Int { // SMT-LIB div (euclidean)
+	if b.Sign() == 0 {
+		return big.NewInt(0)
+	}
+	q, _ := new(big.Int).DivMod(a, b, new(big.Int))
+	return q
+}
+func zzMod(a, b *big.Int) *big.Int {
+	if b.Sign() == 0 {
+		return a
+	}
+	_, m := new(big.Int).DivMod(a, b, new(big.Int))
+	return m
+}
+func zzWrap(a *big.Int, bits uint, signed bool) *big.Int {
+	m := new(big.Int).Lsh(big.NewInt(1), bits)
+	r := zzMod(a, m)
+	if signed && r.Cmp(new(big.Int).Lsh(big.NewInt(1), bits-1)) >= 0 {
+		r.Sub(r, m)
+	}
+	return r
+}
+func zzBits(a *big.Int, hi, lo uint) *big.Int {
+	r := new(big.Int).Rsh(zzMod(a, new(big.Int).Lsh(big.NewInt(1), 200)), lo)
+	return r.And(r, new(big.Int).Sub(new(big.Int).Lsh(big.NewInt(1), hi-lo+1), big.NewInt(1)))
+}
+func zzBE(s []byte, i *big.Int, n int) *big.Int {
+	r := new(big.Int)
+	k := int(i.Int64())
+	for j := 0; j < n; j++ {
+		r.Lsh(r, 8)
+		r.Or(r, big.NewInt(int64(s[k+j])))
+	}
+	return r
+}
+func zzIdx(i *big.Int) int {
+	if !i.IsInt64() {
+		panic("index out of int range")
+	}
+	return int(i.Int64())
+}
+func zzIte[T any](c bool, a, b func() T) T {
+	if c {
+		return a()
+	}
+	return b()
+}
+func zzMin(a, b *big.Int) *big.Int {
+	if a.Cmp(b) <= 0 {
+		return a
+	}
+	return b
+}
+func zzMax(a, b *big.Int) *big.Int {
+	if a.Cmp(b) >= 0 {
+		return a
+	}
+	return b
+}
+func zzBv(b bool) *big.Int {
+	if b {
+		return big.NewInt(1)
+	}
+	return big.NewInt(0)
+}
+func zzForall(lo, hi *big.Int, f func(i *big.Int) bool) bool {
+	if new(big.Int).Sub(hi, lo).Cmp(big.NewInt(200000)) > 0 {
+		panic("quantifier range too large to evaluate")
+	}
+	for i := new(big.Int).Set(lo); i.Cmp(hi) < 0; i = new(big.Int).Add(i, big.NewInt(1)) {
+		if !f(i) {
+			return false
+		}
+	}
+	return true
+}
+func zzExists(lo, hi *big.Int, f func(i *big.Int) bool) bool {
+	return !zzForall(lo, hi, func(i *big.Int) bool { return !f(i) })
+}
+func zzSpan(s any) (lo, hi, capEnd uintptr, isNil bool) {
+	v := reflect.ValueOf(s)
+	switch v.Kind() {
+	case reflect.Slice:
+		if v.IsNil() {
+			return 0, 0, 0, true
+		}
+		sz := v.Type().Elem().Size()
+		lo = v.Pointer()
+		return lo, lo + uintptr(v.Len())*sz, lo + uintptr(v.Cap())*sz, false
+	case reflect.Ptr:
+		if v.IsNil() {
+			return 0, 0, 0, true
+		}
+		lo = v.Pointer()
+		return lo, lo + v.Type().Elem().Size(), lo + v.Type().Elem().Size(), false
+	}
+	panic(fmt.Sprintf("zzSpan: %T", s))
+}
+func zzInput(lo uintptr) (zzRange, bool) {
+	for _, r := range zzInputs {
+		if lo >= r.lo && lo < r.hi || (lo == r.hi && lo == r.lo) {
+			return r, true
+		}
+	}
+	return zzRange{}, false
+}
+func zzFresh(s any) bool {
+	lo, _, _, isNil := zzSpan(s)
+	if isNil {
+		return true
+	}
+	_, in := zzInput(lo)
+	return !in
+}
+func zzSameObj(a, b any) bool {
+	la, _, ca, na := zzSpan(a)
+	lb, _, cb, nb := zzSpan(b)
+	if na || nb {
+		return na && nb
+	}
+	ra, ina := zzInput(la)
+	rb, inb := zzInput(lb)
+	if ina || inb {
+		return ina && inb && ra == rb
+	}
+	return la < cb && lb < ca || la == lb
+}
+func zzOff(s any) *big.Int {
+	v := reflect.ValueOf(s)
+	lo, _, _, isNil := zzSpan(s)
+	if isNil {
+		return big.NewInt(0)
+	}
+	if r, ok := zzInput(lo); ok {
+		sz := uintptr(1)
+		if v.Kind() == reflect.Slice {
+			sz = v.Type().Elem().Size()
+		}
+		return big.NewInt(int64((lo - r.lo) / sz))
+	}
+	return big.NewInt(0)
+}
+func zzWithin(a, b any) bool {
+	la, ha, _, na := zzSpan(a)
+	lb, hb, _, nb := zzSpan(b)
+	if na {
+		return reflect.ValueOf(a).Len() == 0
+	}
+	if nb {
+		return false
+	}
+	return lb <= la && ha <= hb
+}
+func zzEqSeq(a any, ai *big.Int, b any, bi *big.Int, n *big.Int) bool {
+	va, vb := reflect.ValueOf(a), reflect.ValueOf(b)
+	for k := 0; k < zzIdx(n); k++ {
+		if zzOf(va.Index(zzIdx(ai)+k).Interface()).Cmp(zzOf(vb.Index(zzIdx(bi)+k).Interface())) != 0 {
+			return false
+		}
+	}
+	return true
+}
+func zzSameScalars(a, b any) bool {
+	return zzScalars(reflect.ValueOf(a), reflect.ValueOf(b))
+}
+func zzScalars(a, b reflect.Value) bool {
+	switch a.Kind() {
+	case reflect.Struct:
+		for i := 0; i < a.NumField(); i++ {
+			if !zzScalars(a.Field(i), b.Field(i)) {
+				return false
+			}
+		}
+	case reflect.Array:
+		for i := 0; i < a.Len(); i++ {
+			if !zzScalars(a.Index(i), b.Index(i)) {
+				return false
+			}
+		}
+	case reflect.Bool:
+		return a.Bool() == b.Bool()
+	case reflect.Int, reflect.Int8, reflect.Int16, reflect.Int32, reflect.Int64:
+		return a.Int() == b.Int()
+	case reflect.Uint, reflect.Uint8, reflect.Uint16, reflect.Uint32, reflect.Uint64:
+		return a.Uint() == b.Uint()
+	}
+	return true
+}
+
+var _ = unsafe.Pointer(nil)
+var _ = errors.New
+`
